@@ -12,7 +12,7 @@ import (
 )
 
 var c02Forced = []string{"bin.plus", "bin.minus", "bin.mult", "bin.div", "bin.intdiv", "bin.mod", "bin.bitand", "bin.bitor", "bin.bitxor", "bin.shl", "bin.shr",
-	"un.minus", "un.tilde", "un.bang", "case.else", "case.noelse", "null.operand", "item.star", "ref.path", "ref.missing", "from.alias", "where"}
+	"un.minus", "un.tilde", "un.bang", "case.else", "case.noelse", "null.operand", "item.star", "ref.path", "ref.path.bare", "ref.missing", "from.alias", "where"}
 
 func init() {
 	fw.Register(&fw.Prop{
@@ -72,7 +72,7 @@ func c02Proj(c *fw.Case) {
 			items = append(items, gen.SelectItem{Star: true})
 		case f == "ref.missing":
 			items = append(items, gen.SelectItem{E: gen.ColRef{Name: "zz"}})
-		case f == "ref.path":
+		case f == "ref.path" || f == "ref.path.bare":
 			items = append(items, gen.SelectItem{E: gen.ColRef{Name: "o1.q.r"}, Alias: gen.AliasN(i)})
 		case f == "un.bang" || (f == "" && k == 1):
 			items = append(items, gen.SelectItem{E: gen.Bang{P: pg.Gen()}, Alias: gen.AliasN(i)})
@@ -112,7 +112,7 @@ func c02Proj(c *fw.Case) {
 		where = pg.Gen()
 	}
 	var feats []string
-	ro := gen.RenderOpts{Quote: gen.Quoting(c.Intn(2)), StrStyle: c.Intn(2), Features: &feats, Qualifier: alias}
+	ro := gen.RenderOpts{Quote: gen.Quoting(c.Intn(2)), StrStyle: c.Intn(2), Features: &feats, Qualifier: alias, BarePaths: force == "ref.path.bare" || c.Chance(0.3)}
 	sql := "SELECT " + gen.RenderItems(items, ro) + " FROM t1"
 	if alias != "" {
 		sql += " " + alias
